@@ -34,7 +34,7 @@ def gen_case(rng, tier):
     keycols = [[None if rng.random() < null_rate / nkeys * 1.5 else rng.randrange(nlab) for _ in range(n)] for _ in range(nkeys)]
     if all(None not in col for col in keycols):
         keycols[rng.randrange(nkeys)][rng.randrange(n)] = None
-    kinds = [rng.choice([k for k in ["float", "str", "dt", "cat"] if api.kind_ok(col, k)]) for col in keycols]
+    kinds = [rng.choice([k for k in ["float", "str", "dt", "dttz", "date", "cat"] if api.kind_ok(col, k)]) for col in keycols]
     vals = [rng.choice(VALS) for _ in range(n)]
     op = rng.choice(RED + TRANS + ROW + ROW + SEL)
     chunked = n >= 4 and rng.random() < 0.4 and nkeys == 1 and kinds[0] != "cat"
